@@ -237,6 +237,10 @@ where
             // Writing to a fresh sequential buffer avoids scattered-write cache thrashing.
             let (mut res_dft_tmp, scratch_2) = scratch_1.take_vec_znx_dft(self, res_dft.cols(), ggsw.size());
 
+            // The first product is written at a reduced size when dsize > 2 and the limbs it skips
+            // are only ever accumulated into: they must not start from whatever `res_dft` held before.
+            res_dft.zero();
+
             for di in 0..dsize {
                 // (lhs.size() + di) / dsize = (a - (digit - di - 1)).div_ceil(dsize)
                 a_dft.set_size((a.size() + di) / dsize);
